@@ -2,7 +2,7 @@
     MergeTotal / MergeTransfer, and the concrete non-vacuity instances. *)
 From Coq Require Import Permutation Sorted.
 From CJ Require Import Base Dbl Tree CompareDefs CompareProofs MergeDefs Rfc7396 MergeLemmas MergeSort MergeApply MergePerm
-  MergeGen MergeGenerate MergeTotal MergeTransfer.
+  MergeGen MergeGenerate MergeTotal MergeTransfer MergeLibrary MergeDocEq.
 Local Open Scope Z_scope.
 
 (** * application *)
@@ -46,6 +46,27 @@ Proof.
   destruct (generate_dperm true _ _ _ _ _ _ E) as [D1 D2]. split; [|split; assumption].
   apply (generate_sound _ _ _ _ _ _ E Gf Gt Hn Hd).
 Qed.
+
+(* the same round trip through the model's own merge_patch, as the harness performs it: duplicate [from],
+   apply the generated patch (nothing when it is NULL), obtain [to] *)
+Theorem c18_generate_library : forall from to,
+  m7396_doc from = true -> m7396_doc to = true -> no_null_member to = true ->
+  m7396_depth_ok from = true -> m7396_depth_ok to = true ->
+  exists p from' to' d,
+    cJSONUtils_GenerateMergePatchCaseSensitive (Some from) (Some to) = Ok (p, Some from', Some to') /    mp_Duplicate (Some from) = Some d /    match p with
+    | None => doc_eq d to = true
+    | Some s => exists r, cJSONUtils_MergePatchCaseSensitive (Some d) (Some s) = Some r /\ doc_eq r to = true
+    end.
+Proof.
+  intros from to Df Dt Hn Hdf Hdt.
+  destruct (generate_entry_total true from to (m7396_doc_gd _ Df) (m7396_doc_gd _ Dt)) as [p [f' [t' E]]].
+  destruct (library_roundtrip from to p (Some f') (Some t') Df Dt Hn Hdf Hdt E) as [d [Hdup Hr]].
+  exists p, f', t', d. split; [exact E|]. split; [exact Hdup|exact Hr].
+Qed.
+
+(* doc_eq decides its declarative reading *)
+Theorem c18_doc_eq_declarative : forall a b, doc_eq a b = true <-> doc_equiv a b.
+Proof. exact doc_eq_iff. Qed.
 
 (** * the inputs afterwards *)
 Lemma sorted_keys l l' : map n_key l = map n_key l' -> StronglySorted key_le l -> StronglySorted key_le l'.
